@@ -23,5 +23,21 @@ PROPS = {
     },
 }
 
+PROPS["C09"] = {
+    "budget": {"quick": 45, "thorough": 420},
+    "rule": "sequences (arrays of mixed element kinds, ASCII / 2-,3-,4-byte UTF-8 / combining-mark strings; length 0..5) x every index and every "
+            "(start, stop, step) triple drawn from {absent} U [-n-2, n+2] U {MIN, MIN+1, -2^32, -2^31, 2^31, 2^32, MAX-1, MAX}, all 8 slice shapes plus the `[a:b:]` spelling, exhaustive per listed sequence, "
+            "plus seeded random sequences/bounds; each case evaluated folded (literal sequence) and at run time (sequence and bounds as arguments of a pre-parsed function) "
+            "and compared with a PySlice_AdjustIndices oracle written over i128; std.len compared with the scalar count; static type of the literal form must admit the value. "
+            "distinct_nontrivial = distinct (sequence, operation, bounds) cases.",
+    "assumptions": COMMON_ASSUME + ["oracle = Python slice semantics re-implemented in the harness over i128, independent of the slyce crate"],
+    "floors": {"quick": {"evaluations": 200000, "shape:slice_shapes": 20}, "thorough": {"evaluations": 2000000, "shape:slice_shapes": 20}},
+    "technique": "runtime value monitor: differential against an independent Python-slice oracle, exhaustive bounded grid, folded and run-time forms",
+    "level_text": "All listed sequences are indexed and sliced through the real parser/folder/interpreter with every index / (start, stop, step) combination in a range exceeding the length on both sides plus extreme i64 values, "
+                  "in folded and run-time form; values, error kinds, result kind and the static type are compared with an independent oracle. Exhaustive within the listed bounds, sampled beyond.",
+    "level_note": "trusts the harness's Python-slice oracle and its own literal reader; sequences longer than 5 are only sampled",
+    "exhaustive": False,
+}
+
 # properties deliberately not claimed (reason each); anything else missing from PROPS is simply not built yet
 NOT_APPLICABLE = {}
